@@ -398,6 +398,7 @@ func (dsc *dataStoreCommand) getKeySetExpiration(keyName string, expiration time
 		if strBytes != nil {
 			val = string(strBytes)
 			sk.expiresAt = expiration
+			dsc.setDirty()
 		} else {
 			exists = VALUE_WRONG_TYPE
 		}
@@ -805,6 +806,7 @@ func (dsc *dataStoreCommand) del(keyNames []string, reclaim bool) (output respVa
 				dsc.ds.data.remove(keyName)
 			} else {
 				sk.expiresAt = minTime
+				dsc.setDirty()
 			}
 		} else if reclaim {
 			// remove expired now (if it exists)
@@ -956,6 +958,7 @@ func (dsc *dataStoreCommand) expire(keyName string, expiration time.Time, nx, xx
 	}
 
 	sk.expiresAt = expiration
+	dsc.setDirty()
 	output.data = respInt(1)
 	return
 }
@@ -981,6 +984,7 @@ func (dsc *dataStoreCommand) persist(keyName string) (output respValue) {
 		return
 	}
 	sk.expiresAt = maxTime
+	dsc.setDirty()
 	output.data = respInt(1)
 	return
 }
@@ -1822,6 +1826,7 @@ func (dsc *dataStoreCommand) lset(keyName string, element string, count int) (ou
 	}
 
 	item.element = []byte(element)
+	dsc.setDirty()
 	output.data = rstrOK
 	return
 }
@@ -2115,13 +2120,13 @@ func (dsc *dataStoreCommand) fieldAddFloat(keyName, fieldName string, delta floa
 			ve = VALUE_OVERFLOW
 			return
 		}
-		dsc.setDirty()
 		ve = VALUE_EXISTS
 	} else {
 		ve = VALUE_DOESNT_EXIST
 	}
 
 	m.store(fieldName, strconv.FormatFloat(value, 'f', -1, 64))
+	dsc.setDirty()
 	return
 }
 
@@ -2913,6 +2918,7 @@ func (dsc *dataStoreCommand) setMove(source, destination, memberName string) (ou
 	}
 
 	ss.remove(memberName)
+	dsc.setDirty()
 	if ss.count == 0 {
 		dsc.ds.data.remove(source)
 	}
@@ -2943,6 +2949,9 @@ func (dsc *dataStoreCommand) setRemove(keyName string, members []string) (output
 		if m.remove(member) {
 			removals++
 		}
+	}
+	if removals > 0 {
+		dsc.setDirty()
 	}
 	if m.count == 0 {
 		dsc.ds.data.remove(keyName)
